@@ -23,7 +23,10 @@ TARGETS = ["abc", "hello world", "a", "", "héllo", "€uro", "😀", "x1y2", "1
            "1234567", "12345678", "123456789", "exactly sixteen!", "seventeen bytes!!", "thirty-one bytes of plain text!",
            "thirty-two bytes of plain text!!", "quick brown fox jumps over the lazy dog and keeps on running",
            "sixty-four bytes: 0123456789abcdef0123456789abcdef0123456789abcd", "é€😀 mixed widths repeated é€😀 mixed widths repeated é€😀 end",
-           "name=Bartholomew Fitzgerald Montgomery-Smythe", "x" * 100, "ab" * 130]
+           "name=Bartholomew Fitzgerald Montgomery-Smythe", "x" * 100, "ab" * 130,
+           # single characters reached by iteration / indexing whose code points agree in their low bits (a cache of
+           # one-character strings keyed by a truncated code point would mix them up)
+           "года 2024", "2024 года", "αβγ abc", "аa\u0161a", "\u0100\u0200\u0300\u0400 AB", "\u0430\u0030\u0530\u0130", "中文 -e"]
 
 
 def lit(s):
@@ -71,6 +74,10 @@ def routes_program(rng, target, njunk):
         L.append("routes.push(%s.replace(\"#\", %s));" % (lit("#"), lit(s)))
         L.append("routes.push(%s.replace(\"#\", \"\"));" % lit(s[:cut] + "#" + s[cut:]))
     L.append("{ var acc = \"\"; for ch in base { acc = acc + ch; } routes.push(acc); }")
+    # every single character, reached by iteration and by indexing, against the same character cut out by a range
+    L.append("{ var pos = 0; var okc = true; for ch in base { var w = ch.len(); if base[pos] != ch || base[pos..(pos + w)] != ch || "
+             "String.from_code_points(ch.to_code_points()) != ch || ch.to_bytes() != base[pos..(pos + w)].to_bytes() { okc = false; } pos = pos + w; } print(okc); }")
+    L.append("{ var seen = {}; for ch in base { seen.insert(ch, ch.to_bytes()); } var okm = true; for ch in base { if seen.get(ch) != ch.to_bytes() { okm = false; } } print(okm); }")
     L.append("routes.push(String.from(base));")
     L.append("routes.push(String.from_utf8(base.to_bytes()));")
     L.append("routes.push(String.from_code_points(base.to_code_points()));")
